@@ -1019,13 +1019,14 @@ class AnyBetween(__Class):
         '''
         for c in (start, end):
             if isinstance(c, (str, _pre.Pregex)):
-                if len(str(c).replace("\\", "", 1)) > 1:
+                if len(c if isinstance(c, str) else str(c).replace("\\", "", 1)) != 1:
                     message = f"Argument \"{c}\" is neither a string nor a token."
                     raise _ex.InvalidArgumentTypeException(message)
             else:
                 message = f"Argument \"{c}\" is neither a string nor a token."
                 raise _ex.InvalidArgumentTypeException(message)
-        start, end = str(start), str(end)
+        start, end = (c if isinstance(c, str) else str(c).replace("\\", "", 1)
+            for c in (start, end))
         if ord(start) >= ord(end):
             raise _ex.InvalidRangeException(start, end)
         start = f"\\{start}" if start in __class__._to_escape else start
@@ -1066,13 +1067,14 @@ class AnyButBetween(__Class):
         '''
         for c in (start, end):
             if isinstance(c, (str, _pre.Pregex)):
-                if len(str(c).replace("\\", "", 1)) > 1: 
+                if len(c if isinstance(c, str) else str(c).replace("\\", "", 1)) != 1:
                     message = f"Argument \"{c}\" is neither a string nor a token."
                     raise _ex.InvalidArgumentTypeException(message)
             else:
                 message = f"Argument \"{c}\" is neither a string nor a token."
                 raise _ex.InvalidArgumentTypeException(message)
-        start, end = str(start), str(end)
+        start, end = (c if isinstance(c, str) else str(c).replace("\\", "", 1)
+            for c in (start, end))
         if ord(start) >= ord(end):
             raise _ex.InvalidRangeException(start, end)
         start = f"\\{start}" if start in __class__._to_escape else start
@@ -1112,7 +1114,7 @@ class AnyFrom(__Class):
             raise _ex.NotEnoughArgumentsException(message)
         for c in chars:
             if isinstance(c, (str, _pre.Pregex)):
-                if len(str(c).replace("\\", "", 1)) > 1: 
+                if len(c if isinstance(c, str) else str(c).replace("\\", "", 1)) != 1:
                     message = f"Argument \"{c}\" is neither a string nor a token."
                     raise _ex.InvalidArgumentTypeException(message)
             else:
@@ -1155,7 +1157,7 @@ class AnyButFrom(__Class):
             raise _ex.NotEnoughArgumentsException(message)
         for c in chars:
             if isinstance(c, (str, _pre.Pregex)):
-                if len(str(c).replace("\\", "", 1)) > 1: 
+                if len(c if isinstance(c, str) else str(c).replace("\\", "", 1)) != 1:
                     message = f"Argument \"{c}\" is neither a string nor a token."
                     raise _ex.InvalidArgumentTypeException(message)
             else:
